@@ -1040,6 +1040,82 @@ def remove_scoping(mod: Module, fn: ast.FunctionDef, cls: ast.ClassDef) -> list[
 ROLES = ("S", "P", "O")
 
 
+# --------------------------------------------------------------------------- a `match` that binds nothing, read as the if / elif chain it is
+def _boolean_valued(e: ast.AST) -> bool:
+    """e always evaluates to True or False (a comparison by identity / membership, a negation, and / or of such)"""
+    if isinstance(e, ast.UnaryOp) and isinstance(e.op, ast.Not):
+        return True
+    if isinstance(e, ast.Compare):
+        return all(isinstance(o, (ast.Is, ast.IsNot, ast.In, ast.NotIn)) for o in e.ops)
+    if isinstance(e, ast.BoolOp):
+        return all(_boolean_valued(v) for v in e.values)
+    return isinstance(e, ast.Constant) and isinstance(e.value, bool)
+
+
+def pattern_test(subject: ast.expr, pat: ast.AST) -> Optional[list[ast.expr]]:
+    """The conjuncts under which `subject` matches the pattern `pat` ([] = always), or None where the pattern binds a name or
+    destructures something that is not written out as a display in the subject."""
+    if isinstance(pat, ast.MatchAs):
+        return [] if pat.pattern is None and pat.name is None else None
+    if isinstance(pat, ast.MatchSingleton):
+        if isinstance(pat.value, bool) and _boolean_valued(subject):
+            return [subject if pat.value else ast.UnaryOp(op=ast.Not(), operand=subject)]
+        return [ast.Compare(left=subject, ops=[ast.Is()], comparators=[ast.Constant(value=pat.value)])]
+    if isinstance(pat, ast.MatchValue):
+        return [ast.Compare(left=subject, ops=[ast.Eq()], comparators=[pat.value])]
+    if isinstance(pat, ast.MatchClass) and not pat.patterns and not pat.kwd_patterns:
+        return [ast.Call(func=ast.Name(id="isinstance", ctx=ast.Load()), args=[subject, pat.cls], keywords=[])]
+    if isinstance(pat, ast.MatchOr):
+        alts = [pattern_test(subject, q) for q in pat.patterns]
+        if any(a is None for a in alts):
+            return None
+        if any(not a for a in alts):
+            return []
+        return [ast.BoolOp(op=ast.Or(), values=[a[0] if len(a) == 1 else ast.BoolOp(op=ast.And(), values=a) for a in alts])]  # type: ignore[index,arg-type]
+    if isinstance(pat, ast.MatchSequence) and isinstance(subject, (ast.Tuple, ast.List)) and not any(isinstance(q, ast.MatchStar) for q in pat.patterns) \
+            and not any(isinstance(x, ast.Starred) for x in subject.elts):
+        if len(pat.patterns) != len(subject.elts):
+            return [ast.Constant(value=False)]
+        out: list[ast.expr] = []
+        for x, q in zip(subject.elts, pat.patterns):
+            t = pattern_test(x, q)
+            if t is None:
+                return None
+            out += t
+        return out
+    return None
+
+
+def match_as_if(s: ast.AST) -> Optional[list[ast.stmt]]:
+    """The statements a `match` stands for when none of its patterns binds a name: an if / elif / else chain over tests of the subject
+    (a sequence pattern against a subject written as a tuple is the conjunction of the tests of its components).  None = not such a match."""
+    if not isinstance(s, ast.Match):
+        return None
+    arms: list[tuple[list[ast.expr], list[ast.stmt]]] = []
+    for c in s.cases:
+        t = pattern_test(s.subject, c.pattern)
+        if t is None:
+            return None
+        if c.guard is not None:
+            t = t + [c.guard]
+        arms.append((t, c.body))
+        if not t:
+            break
+    chain: list[ast.stmt] = []
+    for t, body in reversed(arms):
+        if not t:
+            chain = list(body)
+            continue
+        test = t[0] if len(t) == 1 else ast.BoolOp(op=ast.And(), values=t)
+        node = ast.If(test=test, body=list(body), orelse=chain)
+        ast.copy_location(node, s)
+        for n in ast.walk(test):
+            if not hasattr(n, "lineno"):
+                ast.copy_location(n, s)
+        chain = [node]
+    return chain
+
+
 def shapes() -> Iterator[dict[str, bool]]:
     import itertools
 
@@ -1533,6 +1609,14 @@ class CtxFilterInterp:
             return res
         if isinstance(s, (ast.With, ast.AsyncWith)):
             return self.block(s.body, self.kill(env, bound_names([i.optional_vars for i in s.items if i.optional_vars is not None])))
+        if isinstance(s, ast.Match):
+            chain = match_as_if(s)
+            if chain is not None:
+                return self.block(chain, env)
+            # a match that binds names: any case may be the one taken (or none), with what it binds unknown
+            captured = {getattr(n, "name", None) or getattr(n, "rest", None) for n in ast.walk(s) if isinstance(n, (ast.MatchAs, ast.MatchStar, ast.MatchMapping))} - {None}
+            base = self.kill(self.copy(env), bound_names(s) | captured)
+            return self.merge([self.copy(base)] + [self.block(c.body, self.copy(base)) for c in s.cases])
         # anything else: forget what it rebinds
         return self.kill(env, bound_names(s))
 
@@ -1867,6 +1951,67 @@ def context_key_function(mod: Module, cls: str, entries: tuple[str, ...] = ("add
     return meths[next(iter(found))]
 
 
+def _module_imports(mod: Module) -> dict[str, tuple[str, Optional[str]]]:
+    """local name -> (dotted module, name imported from it or None for the module itself), for the import statements executed when the module
+    is loaded (top level, also under if / try there)"""
+    out: dict[str, tuple[str, Optional[str]]] = {}
+
+    def absolute(level: int, name: Optional[str]) -> str:
+        if not level:
+            return name or ""
+        base = mod.name.split(".")
+        if not mod.rel.endswith("__init__.py"):
+            base = base[:-1]
+        base = base[:len(base) - (level - 1)] if level > 1 else base
+        return ".".join(base + ([name] if name else []))
+
+    def scan(stmts: list) -> None:
+        for st in stmts:
+            if isinstance(st, ast.ImportFrom):
+                src = absolute(st.level, st.module)
+                for a in st.names:
+                    if a.name != "*":
+                        out[a.asname or a.name] = (src, a.name)
+            elif isinstance(st, ast.Import):
+                for a in st.names:
+                    if a.asname:
+                        out[a.asname] = (a.name, None)
+            elif isinstance(st, ast.If):
+                scan(st.body)
+                scan(st.orelse)
+            elif isinstance(st, ast.Try):
+                scan(st.body)
+                for h in st.handlers:
+                    scan(h.body)
+                scan(st.orelse)
+                scan(st.finalbody)
+
+    scan(mod.tree.body)
+    return out
+
+
+def imported_function(repo, mod: Module, f: ast.expr, fn: ast.AST) -> Optional[tuple[Module, ast.FunctionDef]]:
+    """(module of the package, module-level function there) that the expression f - a name imported from a module of the package, or an
+    attribute of a name that is such a module - plainly denotes inside fn; None where the name is rebound in fn or does not lead into the package."""
+    if repo is None:
+        return None
+    local = bound_names(getattr(fn, "body", [])) | set(positional_params(fn))
+    imps = _module_imports(mod)
+    target: Optional[tuple[str, str]] = None
+    if isinstance(f, ast.Name) and f.id in imps and f.id not in local and f.id not in mod.defs and imps[f.id][1] is not None:
+        target = (imps[f.id][0], imps[f.id][1])  # type: ignore[assignment]
+    elif isinstance(f, ast.Attribute) and isinstance(f.value, ast.Name) and f.value.id in imps and f.value.id not in local and f.value.id not in mod.defs:
+        src, nm = imps[f.value.id]
+        target = (src if nm is None else (src + "." + nm if src else nm), f.attr)
+    if target is None or target[0] not in repo.modules:
+        return None
+    m2 = repo.mod(target[0])
+    d = m2.defs.get(target[1])
+    if isinstance(d, (ast.FunctionDef, ast.AsyncFunctionDef)):
+        return m2, d  # type: ignore[return-value]
+    return None
+
+
 def _callee_def(mod: Module, call: ast.Call, fn: ast.AST, cls_methods: Optional[dict] = None, recv: Optional[str] = None) -> Optional[ast.FunctionDef]:
     """the function of this module a call plainly names: <receiver>.<method of the class>(...) or <module-level function>(...)"""
     f = call.func
@@ -1879,9 +2024,10 @@ def _callee_def(mod: Module, call: ast.Call, fn: ast.AST, cls_methods: Optional[
     return None
 
 
-def returned_leaves(mod: Module, fn: ast.FunctionDef, cls_methods: Optional[dict] = None, depth: int = 4, _seen: Optional[set] = None) -> list[tuple[ast.expr, ast.FunctionDef]]:
+def returned_leaves(mod: Module, fn: ast.FunctionDef, cls_methods: Optional[dict] = None, depth: int = 4, _seen: Optional[set] = None, repo=None) -> list[tuple[ast.expr, ast.FunctionDef]]:
     """(expression, function it stands in) for everything fn can hand back other than the constant None: a returned local is replaced by every
-    value assigned to it, a returned call of a method of the class / a module-level function by what that function returns."""
+    value assigned to it, a returned call of a method of the class / a module-level function by what that function returns - also a
+    module-level function of another module of the package that this module imports (given `repo`); what that one returns is read in its own module."""
     seen = _seen if _seen is not None else set()
     seen.add(id(fn))
     defs = _flat_assignments(fn)
@@ -1905,7 +2051,11 @@ def returned_leaves(mod: Module, fn: ast.FunctionDef, cls_methods: Optional[dict
         if isinstance(e, ast.Call):
             g = _callee_def(mod, e, fn, cls_methods, recv)
             if g is not None and id(g) not in seen and depth:
-                out.extend(returned_leaves(mod, g, cls_methods, depth - 1, seen))
+                out.extend(returned_leaves(mod, g, cls_methods, depth - 1, seen, repo))
+                return
+            far = imported_function(repo, mod, e.func, fn) if g is None else None
+            if far is not None and id(far[1]) not in seen and depth:
+                out.extend(returned_leaves(far[0], far[1], None, depth - 1, seen, repo))
                 return
         out.append((e, fn))
 
